@@ -52,6 +52,15 @@ def _qsplit(q):
     return 1, q
 
 
+def _sqrt(x):
+    """
+    Square root of a second moment. Second moments are non-negative, but for
+    degenerate (e.g. collinear) pixel sets round-off can leave a tiny negative
+    value, which must give 0 rather than NaN.
+    """
+    return np.sqrt(np.maximum(x, 0))
+
+
 def _unit(q):
     """Return the units associated with a number, array, unit, or Quantity"""
     if q is None:
@@ -326,7 +335,7 @@ class SpatialBase(object):
         a, b = self._sky_paxes()
         # We need to multiply the second moment by two to get the major axis
         # rather than the half-major axis.
-        return dx * np.sqrt(self.stat.mom2_along(tuple(a)))
+        return dx * _sqrt(self.stat.mom2_along(tuple(a)))
 
     @property
     def minor_sigma(self):
@@ -339,7 +348,7 @@ class SpatialBase(object):
         a, b = self._sky_paxes()
         # We need to multiply the second moment by two to get the minor axis
         # rather than the half-minor axis.
-        return dx * np.sqrt(self.stat.mom2_along(tuple(b)))
+        return dx * _sqrt(self.stat.mom2_along(tuple(b)))
 
     @property
     def radius(self):
@@ -465,7 +474,7 @@ class PPVStatistic(SpatialBase):
         dv = self.velocity_scale if self.velocity_scale is not None else u.pixel
         ax = [0, 0, 0]
         ax[self.vaxis] = 1
-        return dv * np.sqrt(self.stat.mom2_along(tuple(ax)))
+        return dv * _sqrt(self.stat.mom2_along(tuple(ax)))
 
     @property
     def position_angle(self):
